@@ -383,7 +383,7 @@ class OSFS(FS):
         _path = self.validatepath(path)
         if _path == "/":
             raise errors.RemoveRootError()
-        sys_path = self._to_sys_path(path)
+        sys_path = self._to_sys_path(_path)
         with convert_os_errors("removedir", path, directory=True):
             os.rmdir(sys_path)
 
